@@ -60,11 +60,317 @@ def all_paths(t, pre=()):
             yield from all_paths(v, pre + (k,))
 
 
+# --------------------------------------------------------------------------
+# runtime modifications: histories of edits after the load calls
+# --------------------------------------------------------------------------
+MOD_OPS = ("set", "del", "pop", "popitem", "clear", "setdefault", "update")
+P_MODS = 0.4
+
+
+def _is_sec(v):
+    return isinstance(v, dict) and not cc.is_enc_leaf(v)
+
+
+def _set_path(d, p, v):
+    cur = d
+    for k in p[:-1]:
+        if not _is_sec(cur.get(k)):
+            cur[k] = {}
+        cur = cur[k]
+    cur[p[-1]] = v
+
+
+def _attr_ok(k):
+    """attribute syntax applies to the key (an identifier that is not a real
+    attribute / method of Config)"""
+    try:
+        from invoke.config import Config
+        real = set(dir(Config))
+    except Exception:           # pragma: no cover
+        return False
+    return isinstance(k, str) and k.isidentifier() and not k.startswith("__") and k not in real \
+        and k not in ("True", "False", "None")
+
+
+class ModTwin:
+    """Generation-side bookkeeping only (never the verdict): the levels of the
+    case, the writes and the deletions so far, to aim the next edit at paths
+    that are visible / were deleted."""
+
+    def __init__(self, levels):
+        self.base = {}
+        for name in DOC_ORDER:
+            if _is_sec(levels.get(name)):
+                self.base = cc.py_overlay(self.base, levels[name])
+        self.mods, self.dels = {}, []
+
+    def view(self):
+        v = cc.py_overlay(self.base, self.mods)
+        for p in self.dels:
+            cur = v
+            for k in p[:-1]:
+                cur = cur.get(k) if _is_sec(cur) else None
+                if cur is None:
+                    break
+            if _is_sec(cur):
+                cur.pop(p[-1], None)
+        return v
+
+    def at(self, p):
+        cur = self.view()
+        for k in p:
+            if not _is_sec(cur) or k not in cur:
+                return None, False
+            cur = cur[k]
+        return cur, True
+
+    def sections(self):
+        out = [()]
+
+        def rec(t, pre):
+            for k, v in t.items():
+                if _is_sec(v):
+                    out.append(pre + (k,))
+                    rec(v, pre + (k,))
+        rec(self.view(), ())
+        return out
+
+    def write(self, p, v):
+        p = tuple(p)
+        _set_path(self.mods, p, copy.deepcopy(v))
+        self.dels = [d for d in self.dels if d[:len(p)] != p]
+
+    def delete(self, p):
+        self.dels.append(tuple(p))
+
+    def apply(self, op):
+        """follow the edit; False = it will raise (the script ends there)"""
+        n, kp = op[0], tuple(op[2]) if len(op) > 2 else ()
+        if n == "merge":
+            return True
+        sec, ok = self.at(kp)
+        if not ok or not _is_sec(sec):
+            return False
+        if n == "set":
+            self.write(kp + (op[3],), op[4])
+        elif n == "del":
+            if op[3] not in sec:
+                return False
+            self.delete(kp + (op[3],))
+        elif n == "pop":
+            if op[3] in sec:
+                self.delete(kp + (op[3],))
+            elif op[4] is None:
+                return False
+        elif n == "popitem":
+            if not sec:
+                return False
+            self.delete(kp + (list(sec)[-1],))      # a guess: which key goes is the dict's business
+        elif n == "clear":
+            for k in list(sec):
+                self.delete(kp + (k,))
+        elif n == "setdefault":
+            if op[3] not in sec:
+                self.write(kp + (op[3],), None if op[4] is None else op[4]["d"])
+        elif n == "update":
+            for k, v in op[3]:
+                self.write(kp + (k,), v)
+        return True
+
+
+def _sch_at(sch, p):
+    cur = sch
+    for k in p:
+        if not isinstance(cur, dict) or k not in cur:
+            return None
+        cur = cur[k]
+    return cur
+
+
+def _value_for(rng, sch, p, force=None, avoid=None):
+    """a value for a write at ``p`` keeping the case type-consistent: a leaf of the
+    schema's kind, an instance of the schema's section (``force``: a relative path
+    the written dict must define; ``avoid``: one it must not), a fresh leaf for a
+    path the schema does not know"""
+    node = _sch_at(sch, p)
+    if isinstance(node, dict):
+        v = gt.jsonable(cc.instance(rng, node, rng.choice([0.4, 0.7, 1.0])))
+        if force:
+            sub, cur = node, v
+            for i, k in enumerate(force):
+                sub = sub.get(k) if isinstance(sub, dict) else None
+                if sub is None:
+                    break
+                if i == len(force) - 1:
+                    cur[k] = (gt.jsonable(cc.instance(rng, sub, 0.7)) if isinstance(sub, dict)
+                              else cc.leaf(rng, sub))
+                else:
+                    if not _is_sec(cur.get(k)):
+                        cur[k] = {}
+                    cur = cur[k]
+        if avoid:
+            cur = v
+            for k in avoid[:-1]:
+                cur = cur.get(k) if _is_sec(cur) else None
+                if cur is None:
+                    break
+            if _is_sec(cur):
+                cur.pop(avoid[-1], None)
+        return v
+    if isinstance(node, str):
+        return cc.leaf(rng, node)
+    return cc.leaf(rng, rng.choice("nbis"))
+
+
+def _fl(rng, path):
+    return "attr" if (rng.random() < 0.4 and all(_attr_ok(k) for k in path)) else "item"
+
+
+def gen_mods(rng, sch, keys, levels, n):
+    """a history of ``n`` edits; more than half of the writes are aimed at what an
+    earlier edit deleted: the path itself, its parent section or a section further
+    up (assigned a dict with / without the deleted key), by assignment, update()
+    or setdefault()"""
+    tw = ModTwin(levels)
+    ops, deleted = [], []
+
+    def emit(op):
+        ops.append(op)
+        return tw.apply(op)
+
+    for _ in range(n):
+        secs = tw.sections()
+        alive = True
+        if deleted and rng.random() < 0.6:
+            p = rng.choice(deleted)
+            # the target of the write: the deleted path or one of its proper ancestors
+            cut = rng.choice(range(1, len(p) + 1)) if rng.random() < 0.65 else len(p)
+            t, rel = p[:cut], p[cut:]
+            _, par_ok = tw.at(t[:-1])
+            if not par_ok:
+                continue
+            r = rng.random()
+            v = _value_for(rng, sch, t, force=(rel if (rel and r < 0.7) else None),
+                           avoid=(rel if (rel and r >= 0.85) else None))
+            how = rng.random()
+            if how < 0.6:
+                alive = emit(["set", _fl(rng, t), list(t[:-1]), t[-1], v])
+            elif how < 0.85:
+                kvs = [[t[-1], v]]
+                if rng.random() < 0.3:
+                    par = _sch_at(sch, t[:-1])
+                    if isinstance(par, dict):
+                        k2 = rng.choice(list(par))
+                        if k2 != t[-1]:
+                            kvs.insert(rng.randrange(2), [k2, _value_for(rng, sch, t[:-1] + (k2,))])
+                alive = emit(["update", _fl(rng, t[:-1]), list(t[:-1]), kvs,
+                              rng.choice(["dict", "kwargs", "pairs"]) if all(_attr_ok(k) for k, _ in kvs)
+                              else rng.choice(["dict", "pairs"])])
+            else:
+                alive = emit(["setdefault", _fl(rng, t[:-1]), list(t[:-1]), t[-1], {"d": v}])
+        else:
+            kp = rng.choice(secs)
+            sec, _ = tw.at(kp)
+            kind = rng.choices(["del", "pop", "popitem", "clear", "set", "update", "setdefault", "merge"],
+                               [30, 12, 5, 6, 18, 8, 6, 5])[0]
+            if kind in ("del", "pop"):
+                if not sec:
+                    continue
+                k = rng.choice(list(sec)) if rng.random() < 0.93 else rng.choice(keys)
+                deleted.append(kp + (k,))
+                if kind == "del":
+                    alive = emit(["del", _fl(rng, kp + (k,)), list(kp), k])
+                else:
+                    d = None if rng.random() < 0.5 else {"d": cc.leaf(rng, "isn")}
+                    alive = emit(["pop", _fl(rng, kp), list(kp), k, d])
+            elif kind == "popitem":
+                if not sec:
+                    continue
+                deleted.extend(kp + (k,) for k in sec)
+                alive = emit(["popitem", _fl(rng, kp), list(kp)])
+            elif kind == "clear":
+                if not kp and rng.random() < 0.7:
+                    continue
+                deleted.extend(kp + (k,) for k in sec)
+                alive = emit(["clear", _fl(rng, kp), list(kp)])
+            elif kind == "merge":
+                alive = emit(["merge"])
+            else:
+                node = _sch_at(sch, kp)
+                cands = list(node) if isinstance(node, dict) else []
+                k = rng.choice(cands) if (cands and rng.random() < 0.8) else rng.choice(keys)
+                if isinstance(node, dict) and k not in node:
+                    node[k] = rng.choice("nbis")          # a key only the modifications level defines
+                v = _value_for(rng, sch, kp + (k,))
+                if kind == "set":
+                    alive = emit(["set", _fl(rng, kp + (k,)), list(kp), k, v])
+                elif kind == "update":
+                    alive = emit(["update", _fl(rng, kp), list(kp), [[k, v]],
+                                  rng.choice(["dict", "pairs"])])
+                else:
+                    alive = emit(["setdefault", _fl(rng, kp), list(kp), k,
+                                  {"d": v} if (rng.random() < 0.9 or isinstance(v, dict)) else None])
+        if not alive:
+            break
+    return ops
+
+
+def mods_family():
+    """Systematic "delete, then write again" histories over one small
+    configuration (three levels defining the section): every way of removing a
+    setting x every way of defining it again -- the path itself, its parent, the
+    section two levels up, with and without the removed key in the written dict."""
+    defaults = {"s": {"x": 1, "y": 2, "t": {"u": 3, "v": 4}}, "k": 0}
+    overrides = {"s": {"y": 20, "t": {"v": 40}}}
+    proj = {"s": {"x": 10, "z": 30}}
+    targets = [("s", "x"), ("s", "t"), ("s", "t", "u"), ("k",), ("s",)]
+    fresh = {("s", "x"): 7, ("s", "t"): {"u": 8, "w": 9}, ("s", "t", "u"): 5, ("k",): 6,
+             ("s",): {"x": 11, "t": {"u": 12}, "q": 13}}
+    out = []
+    for P in targets:
+        par, key = P[:-1], P[-1]
+        removers = [[["del", "item", list(par), key]], [["del", "attr", list(par), key]],
+                    [["pop", "item", list(par), key, None]],
+                    [["pop", "attr", list(par), key, {"d": 0}]]]
+        if par:
+            removers.append([["clear", "item", list(par)]])
+        if len(P) == 3:
+            removers.append([["del", "item", list(par), key], ["del", "item", list(par), "v"]])
+        rewriters = [[["set", "item", list(par), key, fresh[P]]],
+                     [["set", "attr", list(par), key, fresh[P]]],
+                     [["update", "item", list(par), [[key, fresh[P]]], "dict"]],
+                     [["setdefault", "item", list(par), key, {"d": fresh[P]}]]]
+        for cut in range(1, len(P)):
+            A, rel = P[:cut], P[cut:]
+            with_key, without = {}, {"fresh": 1}
+            _set_path(with_key, rel, fresh[P])
+            if len(rel) > 1:
+                _set_path(without, rel[:-1] + ("other",), 2)
+            rewriters.append([["set", "item", list(A[:-1]), A[-1], with_key]])
+            rewriters.append([["set", "attr", list(A[:-1]), A[-1], with_key]])
+            rewriters.append([["set", "item", list(A[:-1]), A[-1], without]])
+            rewriters.append([["update", "item", list(A[:-1]), [[A[-1], with_key]], "pairs"]])
+            rewriters.append([["set", "item", list(A[:-1]), A[-1], {}]])
+        for i, rm in enumerate(removers):
+            for j, rw in enumerate(rewriters):
+                ops = [["load_project"]] + rm + rw
+                if (i + j) % 3 == 0:
+                    ops.append(["merge"])
+                if (i + j) % 4 == 1:
+                    ops.insert(1, ["load_shell_env", {"INVOKE_S_Y": "21", "INVOKE_K": "3"}])
+                out.append({"fs": [["projA", ["json", "yaml", "py"][(i + j) % 3], {"data": proj}]],
+                            "init": {"defaults": defaults, "overrides": overrides, "proj": "projA", "rt": None,
+                                     "lazy": bool((i + j) % 2)},
+                            "ops": ops})
+    return out
+
+
 class C03(Prop):
     id = "C03"
     corr_module = "Corr.C03Corr"
-    preds = ("corr", "spec", "in_scope")
+    preds = ("corr", "spec", "in_scope", "with_mods")
     quick_n = 1100
+    shard_size = 70            # 16 shards run in parallel: snapshots after every call make the terms big
     thorough_n = 20000
     rule = ("one schema per case fixes which paths are sections/leaves; each of the 8 non-env levels is "
             "absent or a random sub-tree of it (overlap forced, depth<=4, all leaf kinds); system/user/"
@@ -239,10 +545,23 @@ class C03(Prop):
             ops.append(["load_shell_env", cc.env_for(rng, sch, rng.choice([0.2, 0.5]))])
         elif deferred or rng.random() < 0.1:
             ops.append(["merge"])
+        # runtime modifications: a history of edits after the (settled) load calls
+        if rng.random() < P_MODS:
+            if not ops or (deferred and ops[-1][0] not in ("merge", "load_shell_env")):
+                ops.append(["merge"])
+            # written dicts are plain dicts (Session.supply would wrap them like the levels)
+            init.pop("mapkind", None)
+            levels = supplied_levels({"fs": fs, "init": init, "ops": ops})
+            ops.extend(gen_mods(rng, sch, keys, levels, rng.choice([2, 3, 4, 5, 7])))
         return {"fs": fs, "init": init, "ops": ops}
 
     def generate(self, rng, tier, n):
-        for _ in range(n):
+        fam = mods_family()
+        if tier == "quick":         # a third of the systematic family per run, chosen by the seed
+            k = rng.randrange(3)
+            fam = [c for j, c in enumerate(fam) if j % 3 == k]
+        yield from fam
+        for _ in range(max(0, n - len(fam))):
             yield self.gen_one(rng)
 
     def enumerate_small(self, tier):
